@@ -14,6 +14,17 @@ class Explanations(dict):
         dict.__setitem__(self, name, intervals)
 
 
+# Polarity of a visit: True (explain why the sub-formula holds), False (why it is violated) or None. Below a comparison
+# or an arithmetic operator a sub-formula is a number, not a verdict: there is no polarity to follow, and everything
+# its value may depend on is reported. For every operator one of its two explanations is the whole window.
+def holds(flag, whole_when_sat):
+    return whole_when_sat if flag is None else flag
+
+
+def opposite(flag):
+    return None if flag is None else not flag
+
+
 class LTLExplainer(LtlAstVisitor):
 
     def __init__(self):
@@ -41,8 +52,8 @@ class LTLExplainer(LtlAstVisitor):
         op1_intervals, op2_intervals = explain_predicate(op1_signal, op2_signal, intervals)
         self.explanations[element.name] = intervals
 
-        self.visit(element.children[0], [op1_intervals, flag])
-        self.visit(element.children[1], [op2_intervals, flag])
+        self.visit(element.children[0], [op1_intervals, None])
+        self.visit(element.children[1], [op2_intervals, None])
 
     def visitVariable(self, element, args):
         intervals = args[0]
@@ -56,8 +67,8 @@ class LTLExplainer(LtlAstVisitor):
         op1_intervals, op2_intervals = explain_addition(op1_signal, op2_signal, intervals)
         self.explanations[element.name] = intervals
 
-        self.visit(element.children[0], [op1_intervals, flag])
-        self.visit(element.children[1], [op2_intervals, flag])
+        self.visit(element.children[0], [op1_intervals, None])
+        self.visit(element.children[1], [op2_intervals, None])
 
     def visitMultiplication(self, element, args):
         intervals = args[0]
@@ -67,8 +78,8 @@ class LTLExplainer(LtlAstVisitor):
         op1_intervals, op2_intervals = explain_multiplication(op1_signal, op2_signal, intervals)
         self.explanations[element.name] = intervals
 
-        self.visit(element.children[0], [op1_intervals, flag])
-        self.visit(element.children[1], [op2_intervals, flag])
+        self.visit(element.children[0], [op1_intervals, None])
+        self.visit(element.children[1], [op2_intervals, None])
 
     def visitSubtraction(self, element, args):
         intervals = args[0]
@@ -78,8 +89,8 @@ class LTLExplainer(LtlAstVisitor):
         op1_intervals, op2_intervals = explain_subtraction(op1_signal, op2_signal, intervals)
         self.explanations[element.name] = intervals
 
-        self.visit(element.children[0], [op1_intervals, flag])
-        self.visit(element.children[1], [op2_intervals, flag])
+        self.visit(element.children[0], [op1_intervals, None])
+        self.visit(element.children[1], [op2_intervals, None])
 
     def visitDivision(self, element, args):
         intervals = args[0]
@@ -89,8 +100,8 @@ class LTLExplainer(LtlAstVisitor):
         op1_intervals, op2_intervals = explain_division(op1_signal, op2_signal, intervals)
         self.explanations[element.name] = intervals
 
-        self.visit(element.children[0], [op1_intervals, flag])
-        self.visit(element.children[1], [op2_intervals, flag])
+        self.visit(element.children[0], [op1_intervals, None])
+        self.visit(element.children[1], [op2_intervals, None])
 
     def visitAbs(self, element, args):
         intervals = args[0]
@@ -99,7 +110,7 @@ class LTLExplainer(LtlAstVisitor):
         op_intervals = explain_abs(op_signal, intervals)
         self.explanations[element.name] = intervals
 
-        self.visit(element.children[0], [op_intervals, flag])
+        self.visit(element.children[0], [op_intervals, None])
 
     def visitSqrt(self, element, args):
         intervals = args[0]
@@ -108,7 +119,7 @@ class LTLExplainer(LtlAstVisitor):
         op_intervals = explain_sqrt(op_signal, intervals)
         self.explanations[element.name] = intervals
 
-        self.visit(element.children[0], [op_intervals, flag])
+        self.visit(element.children[0], [op_intervals, None])
 
     def visitExp(self, element, args):
         intervals = args[0]
@@ -117,7 +128,7 @@ class LTLExplainer(LtlAstVisitor):
         op_intervals = explain_exp(op_signal, intervals)
         self.explanations[element.name] = intervals
 
-        self.visit(element.children[0], [op_intervals, flag])
+        self.visit(element.children[0], [op_intervals, None])
 
     def visitPow(self, element, args):
         intervals = args[0]
@@ -127,53 +138,53 @@ class LTLExplainer(LtlAstVisitor):
         op1_intervals, op2_intervals = explain_pow(op1_signal, op2_signal, intervals)
         self.explanations[element.name] = intervals
 
-        self.visit(element.children[0], [op1_intervals, flag])
-        self.visit(element.children[1], [op2_intervals, flag])
+        self.visit(element.children[0], [op1_intervals, None])
+        self.visit(element.children[1], [op2_intervals, None])
 
     def visitRise(self, element, args):
         intervals = args[0]
         flag = args[1]
         op_signal = self.spec.results[element.children[0]]
-        if flag:
+        if holds(flag, True):
             op_intervals, prev_intervals = explain_sat_rise(op_signal, intervals)
         else:
             op_intervals, prev_intervals = explain_unsat_rise(op_signal, intervals)
         self.explanations[element.name] = intervals
 
         self.visit(element.children[0], [op_intervals, flag])
-        self.visit(element.children[0], [prev_intervals, not flag])
+        self.visit(element.children[0], [prev_intervals, opposite(flag)])
 
     def visitFall(self, element, args):
         intervals = args[0]
         flag = args[1]
         op_signal = self.spec.results[element.children[0]]
-        if flag:
+        if holds(flag, True):
             op_intervals, prev_intervals = explain_sat_fall(op_signal, intervals)
         else:
             op_intervals, prev_intervals = explain_unsat_fall(op_signal, intervals)
         self.explanations[element.name] = intervals
 
-        self.visit(element.children[0], [op_intervals, not flag])
+        self.visit(element.children[0], [op_intervals, opposite(flag)])
         self.visit(element.children[0], [prev_intervals, flag])
 
     def visitNot(self, element, args):
         intervals = args[0]
         flag = args[1]
         op_signal = self.spec.results[element.children[0]]
-        if flag:
+        if holds(flag, True):
             op_intervals = explain_sat_not(op_signal, intervals)
         else:
             op_intervals = explain_unsat_not(op_signal, intervals)
         self.explanations[element.name] = intervals
 
-        self.visit(element.children[0], [op_intervals, not flag])
+        self.visit(element.children[0], [op_intervals, opposite(flag)])
 
     def visitAnd(self, element, args):
         intervals = args[0]
         flag = args[1]
         op1_signal = self.spec.results[element.children[0]]
         op2_signal = self.spec.results[element.children[1]]
-        if flag:
+        if holds(flag, True):
             op1_intervals, op2_intervals = explain_sat_and(op1_signal, op2_signal, intervals)
         else:
             op1_intervals, op2_intervals = explain_unsat_and(op1_signal, op2_signal, intervals)
@@ -187,7 +198,7 @@ class LTLExplainer(LtlAstVisitor):
         flag = args[1]
         op1_signal = self.spec.results[element.children[0]]
         op2_signal = self.spec.results[element.children[1]]
-        if flag:
+        if holds(flag, False):
             op1_intervals, op2_intervals = explain_sat_or(op1_signal, op2_signal, intervals)
         else:
             op1_intervals, op2_intervals = explain_unsat_or(op1_signal, op2_signal, intervals)
@@ -201,14 +212,14 @@ class LTLExplainer(LtlAstVisitor):
         flag = args[1]
         op1_signal = self.spec.results[element.children[0]]
         op2_signal = self.spec.results[element.children[1]]
-        if flag:
+        if holds(flag, False):
             op1_intervals, op2_intervals = explain_sat_implies(op1_signal, op2_signal, intervals)
         else:
             op1_intervals, op2_intervals = explain_unsat_implies(op1_signal, op2_signal, intervals)
         self.explanations[element.name] = intervals
 
         # the premise contributes with the opposite polarity
-        self.visit(element.children[0], [op1_intervals, not flag])
+        self.visit(element.children[0], [op1_intervals, opposite(flag)])
         self.visit(element.children[1], [op2_intervals, flag])
 
     def visitIff(self, element, args):
@@ -216,7 +227,7 @@ class LTLExplainer(LtlAstVisitor):
         flag = args[1]
         op1_signal = self.spec.results[element.children[0]]
         op2_signal = self.spec.results[element.children[1]]
-        if flag:
+        if holds(flag, True):
             op1_intervals, op2_intervals = explain_sat_iff(op1_signal, op2_signal, intervals)
         else:
             op1_intervals, op2_intervals = explain_unsat_iff(op1_signal, op2_signal, intervals)
@@ -230,7 +241,7 @@ class LTLExplainer(LtlAstVisitor):
         flag = args[1]
         op1_signal = self.spec.results[element.children[0]]
         op2_signal = self.spec.results[element.children[1]]
-        if flag:
+        if holds(flag, True):
             op1_intervals, op2_intervals = explain_sat_xor(op1_signal, op2_signal, intervals)
         else:
             op1_intervals, op2_intervals = explain_unsat_xor(op1_signal, op2_signal, intervals)
@@ -243,7 +254,7 @@ class LTLExplainer(LtlAstVisitor):
         intervals = args[0]
         flag = args[1]
         op_signal = self.spec.results[element.children[0]]
-        if flag:
+        if holds(flag, False):
             op_intervals = explain_sat_eventually(op_signal, intervals)
         else:
             op_intervals = explain_unsat_eventually(op_signal, intervals)
@@ -255,7 +266,7 @@ class LTLExplainer(LtlAstVisitor):
         intervals = args[0]
         flag = args[1]
         op_signal = self.spec.results[element.children[0]]
-        if flag:
+        if holds(flag, True):
             op_intervals = explain_sat_always(op_signal, intervals)
         else:
             op_intervals = explain_unsat_always(op_signal, intervals)
@@ -271,7 +282,7 @@ class LTLExplainer(LtlAstVisitor):
         intervals = args[0]
         flag = args[1]
         op_signal = self.spec.results[element.children[0]]
-        if flag:
+        if holds(flag, False):
             op_intervals = explain_sat_once(op_signal, intervals)
         else:
             op_intervals = explain_unsat_once(op_signal, intervals)
@@ -283,7 +294,7 @@ class LTLExplainer(LtlAstVisitor):
         intervals = args[0]
         flag = args[1]
         op_signal = self.spec.results[element.children[0]]
-        if flag:
+        if holds(flag, True):
             op_intervals = explain_sat_prev(op_signal, intervals)
         else:
             op_intervals = explain_unsat_prev(op_signal, intervals)
@@ -295,7 +306,7 @@ class LTLExplainer(LtlAstVisitor):
         intervals = args[0]
         flag = args[1]
         op_signal = self.spec.results[element.children[0]]
-        if flag:
+        if holds(flag, True):
             op_intervals = explain_sat_prev(op_signal, intervals)
         else:
             op_intervals = explain_unsat_prev(op_signal, intervals)
@@ -307,7 +318,7 @@ class LTLExplainer(LtlAstVisitor):
         intervals = args[0]
         flag = args[1]
         op_signal = self.spec.results[element.children[0]]
-        if flag:
+        if holds(flag, True):
             op_intervals = explain_sat_next(op_signal, intervals)
         else:
             op_intervals = explain_unsat_next(op_signal, intervals)
@@ -319,7 +330,7 @@ class LTLExplainer(LtlAstVisitor):
         intervals = args[0]
         flag = args[1]
         op_signal = self.spec.results[element.children[0]]
-        if flag:
+        if holds(flag, True):
             op_intervals = explain_sat_next(op_signal, intervals)
         else:
             op_intervals = explain_unsat_next(op_signal, intervals)
@@ -331,7 +342,7 @@ class LTLExplainer(LtlAstVisitor):
         intervals = args[0]
         flag = args[1]
         op_signal = self.spec.results[element.children[0]]
-        if flag:
+        if holds(flag, True):
             op_intervals = explain_sat_historically(op_signal, intervals)
         else:
             op_intervals = explain_unsat_historically(op_signal, intervals)
